@@ -18,9 +18,23 @@ import os
 import numpy as np
 
 from harness import extract
+from harness import c19_r7_fixtures as r7
 from harness.core import f2b, b2f, MachineryError
 
-MODEL_MODULES = ['SkyllhModel.Model.Coords', 'SkyllhModel.Generated.C19']
+MODEL_MODULES = ['SkyllhModel.Model.Coords', 'SkyllhModel.Model.CoordsR7', 'SkyllhModel.Generated.C19']
+
+# which code is inside the executable Lean model (compared with the real callable on every run)
+MODEL_MAP = {
+    'skyllh/core/utils/coords.py::angular_separation': ['Coords.angSepD', 'Coords.angSepFloor', 'Coords.angSepCall', 'Coords.vecAngle'],
+    'skyllh/core/utils/coords.py::rotate_spherical_vector': ['Coords.rotateSphericalVectorD', 'Coords.rotateCall'],
+    'skyllh/core/utils/coords.py::rotate_signal_events_on_sphere': ['Coords.relocateD', 'Coords.relocateCall'],
+    'skyllh/i3/utils/coords.py::azi_to_ra_transform': ['Coords.aziToRa', 'Coords.aziToRaCall'],
+    'skyllh/i3/utils/coords.py::ra_to_azi_transform': ['Coords.raToAzi', 'Coords.raToAziCall'],
+    'skyllh/i3/utils/coords.py::hor_to_equ_transform': ['Coords.horToEqu', 'Coords.horToEquCall'],
+    'skyllh/analyses/i3/publicdata_ps/utils.py::psi_to_dec_and_ra': ['Coords.psiToDecRa', 'Coords.psiToDecRaCall'],
+    'skyllh/core/utils/tdm.py::get_tdm_field_func_psi': ['Coords.psiField', 'Coords.psiFieldCall', 'Coords.psiFieldCallI'],
+    'skyllh/core/signalpdf.py::GaussianPSFPointLikeSourceSignalSpatialPDF.calculate_pd': ['Coords.psfField', 'Coords.gaussPsfPd'],
+}
 
 PI = math.pi
 TWO_PI = 2 * math.pi
@@ -67,8 +81,64 @@ def _constants(ctx):
     return vals
 
 
+RECORDED_SIGNATURES = {
+    'angSepParams': ['ra1', 'dec1', 'ra2', 'dec2', 'psi_floor'],
+    'angSepRequired': ['ra1', 'dec1', 'ra2', 'dec2'],
+    'rotateParams': ['ra1', 'dec1', 'ra2', 'dec2', 'ra3', 'dec3'],
+    'relocateParams': ['src_ra', 'src_dec', 'evt_true_ra', 'evt_true_dec', 'evt_reco_ra', 'evt_reco_dec'],
+    'aziToRaParams': ['azi', 'mjd'],
+    'raToAziParams': ['ra', 'mjd'],
+    'horToEquParams': ['azi', 'zen', 'mjd'],
+    'psiFieldFuncParams': ['psi_floor'],
+}
+_SIG_SOURCES = {
+    'angSepParams': ('skyllh/core/utils/coords.py', 'angular_separation', 0),
+    'angSepRequired': ('skyllh/core/utils/coords.py', 'angular_separation', 1),
+    'rotateParams': ('skyllh/core/utils/coords.py', 'rotate_spherical_vector', 0),
+    'relocateParams': ('skyllh/core/utils/coords.py', 'rotate_signal_events_on_sphere', 0),
+    'aziToRaParams': ('skyllh/i3/utils/coords.py', 'azi_to_ra_transform', 0),
+    'raToAziParams': ('skyllh/i3/utils/coords.py', 'ra_to_azi_transform', 0),
+    'horToEquParams': ('skyllh/i3/utils/coords.py', 'hor_to_equ_transform', 0),
+    'psiFieldFuncParams': ('skyllh/core/utils/tdm.py', 'get_tdm_field_func_psi', 0),
+}
+
+
+def _signatures(ctx):
+    """parameter lists (order = the positional order the harness and the call-level model use) and the `psi_floor=None`
+    defaults of the anchored functions, read from the current source"""
+    sigs = {}
+    for key, (rel, fn, which) in _SIG_SOURCES.items():
+        try:
+            sigs[key] = list(extract.func_params(rel, None, fn)[which])
+        except Exception as e:  # noqa
+            sigs[key] = list(RECORDED_SIGNATURES[key])
+            ctx.proof['generated_fallbacks'].append(key)
+            ctx.note('C19: extraction of %s failed (%s); using the recorded value' % (key, e))
+    flags = {}
+    for key, rel, fn in (('angSepFloorDefaultNone', 'skyllh/core/utils/coords.py', 'angular_separation'),
+                         ('psiFieldFloorDefaultNone', 'skyllh/core/utils/tdm.py', 'get_tdm_field_func_psi')):
+        try:
+            f = extract.find_func(extract.parse(rel), fn)
+            a = f.args
+            pos = a.posonlyargs + a.args
+            dflt = dict(zip([x.arg for x in pos[len(pos) - len(a.defaults):]], a.defaults))
+            d = dflt['psi_floor']
+            flags[key] = isinstance(d, ast.Constant) and d.value is None
+        except Exception as e:  # noqa
+            flags[key] = True
+            ctx.proof['generated_fallbacks'].append(key)
+            ctx.note('C19: extraction of %s failed (%s); using the recorded value True' % (key, e))
+    return sigs, flags
+
+
 def generated(ctx):
     v = _constants(ctx)
+    sigs, flags = _signatures(ctx)
+    sig_text = ''.join('/-- parameter names of `%s` (%s) -/\ndef %s : List String := %s\n'
+                       % (_SIG_SOURCES[k][1], 'required only' if _SIG_SOURCES[k][2] else 'all, in order', k, extract.lean_str_list(sigs[k]))
+                       for k in _SIG_SOURCES)
+    sig_text += ''.join('/-- the default of `psi_floor` is `None` (no floor: model `psiFloor = none`) -/\ndef %s : Bool := %s\n'
+                        % (k, 'true' if flags[k] else 'false') for k in sorted(flags))
     return ('/- generated by harness/props/c19.py from skyllh/i3/utils/coords.py; do not edit -/\n'
             'namespace Gen.C19\n'
             '/-- `_sidereal_length` in `azi_to_ra_transform` -/\n'
@@ -77,8 +147,9 @@ def generated(ctx):
             'def siderealOffset {F : Type} [OfScientific F] : F := %s\n'
             '/-- astropy `offset_by` pole threshold on `cos(lat)` -/\n'
             'def poleEps {F : Type} [OfScientific F] : F := %s\n'
+            '%s'
             'end Gen.C19\n') % (extract.lean_float(v['sidereal_length']), extract.lean_float(v['sidereal_offset']),
-                                extract.lean_float(v['pole_eps']))
+                                extract.lean_float(v['pole_eps']), sig_text)
 
 
 # ------------------------------------------------------------------------------------------
@@ -1167,10 +1238,18 @@ def _as_form(vals, form):
     raise ValueError(form)
 
 
-def _call_fn(fn, args, floor):
+def _call_fn(fn, args, floor, floor_form='kw'):
     from skyllh.core.utils.coords import angular_separation, rotate_spherical_vector, rotate_signal_events_on_sphere
     from skyllh.i3.utils.coords import azi_to_ra_transform
     if fn == 'sep':
+        # how the floor is handed over is a generated dimension: keyword / omitted (default of the signature, only for
+        # "no floor") / fifth positional argument / all five as keywords (as tdm.py calls it)
+        if floor_form == 'omit' and floor is None:
+            return (angular_separation(*args),)
+        if floor_form == 'pos':
+            return (angular_separation(*args, floor),)
+        if floor_form == 'allkw':
+            return (angular_separation(ra1=args[0], dec1=args[1], ra2=args[2], dec2=args[3], psi_floor=floor),)
         return (angular_separation(*args, psi_floor=floor),)
     if fn == 'azi':
         return (azi_to_ra_transform(*args),)
@@ -1182,12 +1261,12 @@ def _call_fn(fn, args, floor):
     raise ValueError(fn)
 
 
-def _try_call(fn, args, floor):
+def _try_call(fn, args, floor, floor_form='kw'):
     """→ (outputs | None, exception | None); the arguments must come back unchanged"""
     keep = [np.array(a, dtype=np.float64, copy=True) if not isinstance(a, (float, int)) else a for a in args]
     try:
         with np.errstate(all='ignore'):
-            out = _call_fn(fn, args, floor)
+            out = _call_fn(fn, args, floor, floor_form)
     except Exception as e:  # noqa
         out, exc = None, e
     else:
@@ -1221,7 +1300,7 @@ def chk_calls(case, model_line=None):
     if ch is not None:
         f.all('modifies-input', '%s modifies its argument %d in place' % (desc, ch))
         return f
-    got, eform, ch = _try_call(fn, [_as_form(a, fm) for a, fm in zip(args, forms)], floor)
+    got, eform, ch = _try_call(fn, [_as_form(a, fm) for a, fm in zip(args, forms)], floor, case.get('floor_form', 'kw'))
     if ch is not None:
         f.all('modifies-input', '%s modifies its argument %d in place' % (desc, ch))
         return f
@@ -1348,6 +1427,8 @@ def gen_calls(rng):
     case = {'fn': fn, 'args': args, 'forms': forms, 'floor': None}
     if fn == 'sep' and rng.random() < 0.2:
         case['floor'] = rng.choice([0.0, 1e-3, 1.0])
+    if fn == 'sep':
+        case['floor_form'] = rng.choice(['kw', 'omit', 'pos', 'allkw'])
     return cls, case
 
 
@@ -1471,6 +1552,42 @@ def gen_psicall(rng):
 
 CHECKS['psicall'] = chk_psicall
 ORACLES['psicall'] = _oracle_of_check('psicall')
+
+
+# ---- round 7: signed index pairs (numpy wrap-around) and hor_to_equ / ra_to_azi as whole calls (harness/c19_r7_fixtures.py)
+def _H():
+    import sys
+    return sys.modules[__name__]
+
+
+def _cleaned(f):
+    f.txt = [_clean_text(t) if t else t for t in f.txt]
+    return f
+
+
+def chk_psicalli(case, model_line=None, norm_lines=None):
+    return _cleaned(r7.chk_psicalli(_H(), case, model_line=model_line, norm_lines=norm_lines,
+                                    counts=BRANCH_COUNTS if model_line is not None else None))
+
+
+def chk_horcall(case, model_line=None):
+    return _cleaned(r7.chk_horcall(_H(), case, model_line=model_line, counts=BRANCH_COUNTS if model_line is not None else None))
+
+
+def chk_psi2call(case, model_lines=None):
+    return _cleaned(r7.chk_psi2call(_H(), case, model_lines=model_lines, counts=BRANCH_COUNTS if model_lines is not None else None))
+
+
+CHECKS['psicalli'] = chk_psicalli
+CHECKS['horcall'] = chk_horcall
+CHECKS['psi2call'] = chk_psi2call
+ORACLES['psi2call'] = _oracle_of_check('psi2call')
+_FUNC_OF['psi2call'] = 'psi_to_dec_and_ra'
+ORACLES['psicalli'] = _oracle_of_check('psicalli')
+ORACLES['horcall'] = _oracle_of_check('horcall')
+_FUNC_OF['psicalli'] = 'tdm_field_func_psi'
+_FUNC_OF['horcall'] = 'hor_to_equ_transform'
+BRANCHES.update(r7.R7_BRANCHES)
 
 
 def _tdm_tag(res):
@@ -1910,6 +2027,8 @@ def run(ctx):
         cls, case = gen_calls(rng)
         call_cases.append(case)
         ctx.count('calls:%s:%s' % (case['fn'], cls))
+        if case.get('floor_form'):
+            ctx.count('calls:sep:floor-passed=%s%s' % (case['floor_form'], '' if case.get('floor') is not None else ',no-floor'))
         for fm in case['forms']:
             ctx.count('calls:form=' + fm)
     call_models = ctx.driver('C19', [_calls_request(c) for c in call_cases])
@@ -1934,6 +2053,53 @@ def run(ctx):
         ctx.case(nontrivial=True, key=('psicall', case))
         for i, tag, txt in chk_psicall(case, model_line=ml).items():
             ctx.violation('psicall', case, txt, signature=_sig('psicall', 'call/' + tag), model_output=ml)
+
+    # ---- round 7: signed index pairs (numpy's wrap-around of negative indices; model normIdx / psiFieldCallI)
+    pi_cases = []
+    for _ in range(ctx.n(200, 3000)):
+        cls, case = r7.gen_psicalli(_H(), rng)
+        pi_cases.append(case)
+        ctx.count('psicalli:' + cls)
+    pi_models = ctx.driver('C19', [r7.psicalli_request(_H(), c) for c in pi_cases])
+    ni_reqs = [r7.normidx_requests(c) for c in pi_cases]
+    ni_flat = ctx.driver('C19', [r for rs in ni_reqs for r in rs]) if any(ni_reqs) else []
+    pos = 0
+    for case, ml, rs in zip(pi_cases, pi_models, ni_reqs):
+        nl = ni_flat[pos:pos + len(rs)]
+        pos += len(rs)
+        ctx.case(nontrivial=True, key=('psicalli', case))
+        for i, tag, txt in chk_psicalli(case, model_line=ml, norm_lines=nl).items():
+            ctx.violation('psicalli', case, txt, signature=_sig('psicalli', 'signed-call/' + tag), model_output=ml)
+
+    # ---- round 7: hor_to_equ_transform / ra_to_azi_transform as whole calls (model horToEquCall / raToAziCall)
+    hc_cases = []
+    for _ in range(ctx.n(300, 5000)):
+        cls, case = r7.gen_horcall(_H(), rng)
+        hc_cases.append(case)
+        ctx.count('horcall:' + cls)
+    hc_models = ctx.driver('C19', [r7.horcall_request(_H(), c) for c in hc_cases])
+    for case, ml in zip(hc_cases, hc_models):
+        ctx.case(nontrivial=True, key=('horcall', case))
+        for i, tag, txt in chk_horcall(case, model_line=ml).items():
+            fn = 'hor_to_equ_transform' if case['fn'] == 'hor' else 'ra_to_azi_transform'
+            ctx.violation('horcall', case, txt, signature='C19/%s/call/%s' % (fn, tag), model_output=ml)
+
+    # ---- round 7: psi_to_dec_and_ra as one call (model psiToDecRaCall / psiDrawRequest)
+    p2_cases = []
+    for _ in range(ctx.n(250, 4000)):
+        cls, case = r7.gen_psi2call(_H(), rng)
+        p2_cases.append(case)
+        ctx.count('psi2call:' + cls)
+    p2_models = ctx.driver('C19', [r for c in p2_cases for r in r7.psi2call_requests(_H(), c)])
+    for j, case in enumerate(p2_cases):
+        ml = p2_models[2 * j:2 * j + 2]
+        ctx.case(nontrivial=True, key=('psi2call', case))
+        try:
+            fails = chk_psi2call(case, model_lines=ml)
+        except MachineryStub as e:
+            raise MachineryError('C19 fixture: %s' % e)
+        for i, tag, txt in fails.items():
+            ctx.violation('psi2call', case, txt, signature=_sig('psi2call', 'call/' + tag), model_output=' | '.join(ml))
 
     # ---- the psi data field of a real TrialDataManager and the Gaussian PSF density
     tdm_cases = []
@@ -2057,7 +2223,13 @@ def run(ctx):
         'c19_block_broadcast_eq_take_of_sorted: ascending source indices': 'established for the default pairs (c19_default_pairs, '
         'c19_block_broadcast_default_pairs); false otherwise (c19_block_broadcast_counterexample)',
         'c19_azi_ra_sidereal_period: len != 0': 'discharged for the constant of the current source (c19_sidereal_length_ne_zero)',
-        '0 < eps': 'discharged for the threshold of the installed astropy (…_for_current_source)'}
+        '0 < eps': 'discharged for the threshold of the installed astropy (…_for_current_source)',
+        'c19_psiFieldCallI_refines: every signed pair normalises (pairs.map normPair = ps.map some)': 'established by the code: np.take '
+        'raises for the whole call otherwise (c19_psiFieldCallI_error: exactly when an index is outside [-n, n)); real trials only '
+        'produce non-negative indices (c19_psiFieldCallI_nat)',
+        'c19_angSepCall_elem / c19_aziToRaCall_elem: the call succeeded': 'established by the code: numpy raises otherwise '
+        '(c19_angSepCall_error, c19_bcastLen)',
+        'argument order / psi_floor=None of the call-level model': 'discharged for the current source (c19_signatures_for_current_source)'}
     ctx.extra['counts'] = {'branches': BRANCH_COUNTS,
                            'zero_hit_branches': sorted('%s/%s' % (k, b) for k, bs in BRANCHES.items() for b in bs
                                                        if not BRANCH_COUNTS.get(k, {}).get(b)),
@@ -2108,7 +2280,10 @@ MANIFEST = dict(
           'without the clips and for astropy\'s offset_by); psi_to_dec_and_ra returns directions at separation psi; '
           'rotate_spherical_vector and the astropy relocation preserve the separation (exactly outside astropy\'s polar cap, within '
           '2*(pi/2-|dec_src|) everywhere) and the relocation preserves the position angle; whole calls (broadcasting, length asserts, '
-          'SkyCoord validation, np.take errors) raise exactly when the call-level model says; the psi trial-data field and the Gaussian PSF density hold the vector angle of their own pair. '
+          'SkyCoord validation, np.take errors incl. numpy\'s wrap-around of negative indices) raise exactly when the call-level model says, and '
+          'every element of a successful angular_separation / azi_to_ra_transform / hor_to_equ_transform call is the per-element function of '
+          'the broadcast elements (hor_to_equ_transform: one declination per zenith angle, not broadcast); parameter lists and psi_floor '
+          'defaults are regenerated from the source; the psi trial-data field and the Gaussian PSF density hold the vector angle of their own pair. '
           'The Float instance of the same model is compared with the real functions and real TrialDataManagers on every run; per-element '
           'oracles (80-bit reference, metamorphic relations, purity, error paths) search the implementation for failing inputs.'),
     note=('hor_to_equ_transform returns dec = pi - zen (counterexample theorem; pinned by tests/i3/test_coords.py). Open findings: astropy NaN '
